@@ -255,6 +255,10 @@ def generate(run_seed, tier):
     mcfg['contribs'] = ['Absorption'] + [x for x in ('CIA', 'Rayleigh')
                                          if c.random() < 0.4]
     R.add_extra_contribs(c, mcfg, p=0.2)
+    if c.random() < 0.2:
+        # a chemistry that reports condensates (their spread is one more
+        # per-layer profile accumulated over the ranks)
+        mcfg['condensate'] = True
     mcfg['nlayers'] = c.randint(2, 6)
     mcfg['opac']['ngrid'] = c.randint(10, 24)
     fit = S.gen_fit(c, mcfg, nmax=3, rich=True)
@@ -383,6 +387,24 @@ def ref_quantiles(x, w, qs):
         cdf.append(acc)
     cdf = [c / cdf[-1] for c in cdf]
     return [float(np.interp(q, cdf, xs)) for q in qs]
+
+
+def ref_quantile_envelope(x, w, qs):
+    """With equal sample values the rule's result depends on the order of the
+    tied samples only through the weight of the FIRST sample of each tied
+    block (the end of the segment that climbs to the block); it is monotone
+    in that weight.  Returns (lowest, highest) result over all orders: tied
+    samples by descending weight, and by ascending weight."""
+    def run(sign):
+        idx = sorted(range(len(x)), key=lambda i: (x[i], sign * w[i]))
+        xs = [x[i] for i in idx]
+        acc, cdf = 0.0, []
+        for i in idx:
+            acc += w[i]
+            cdf.append(acc)
+        cdf = [c / cdf[-1] for c in cdf]
+        return [float(np.interp(q, cdf, xs)) for q in qs]
+    return run(-1), run(+1)
 
 
 def _var_close(v_impl, v_ref, mean_ref, where):
@@ -577,6 +599,9 @@ def execute(case, keep_text=False):
             acc = {'temp_profile_std': [], 'active_mix_profile_std': [],
                    'inactive_mix_profile_std': [], 'native_std': [],
                    'binned_std': []}
+            if cfg['model'].get('condensate'):
+                acc['condensate_profile_std'] = []
+                out.bump('probes', 'condensate_profiles')
             wl = []
             binner = obs0.create_binner()
             if cfg.get('native_binner'):
@@ -591,6 +616,9 @@ def execute(case, keep_text=False):
                     np.array(model0.chemistry.activeGasMixProfile))
                 acc['inactive_mix_profile_std'].append(
                     np.array(model0.chemistry.inactiveGasMixProfile))
+                if 'condensate_profile_std' in acc:
+                    acc['condensate_profile_std'].append(
+                        np.array(model0.chemistry.condensateMixProfile))
                 acc['native_std'].append(np.array(native))
                 acc['binned_std'].append(np.array(binner.bindown(ng, native)[1]))
                 wl.append(w)
@@ -674,6 +702,19 @@ def execute(case, keep_text=False):
                         if single[sid] is None:
                             single[sid] = run_single(sid)
                         out.bump('probes', 'tied_derived_values')
+                        lo, hi = ref_quantile_envelope(
+                            list(rt), list(weights), [0.16, 0.5, 0.84])
+                        v50 = float(ent['value'])
+                        tol = 1e-9 * max(abs(v50), abs(hi[2] - lo[0]), 1e-300)
+                        for j, (nm, gv) in enumerate((
+                                ('q16', v50 - float(ent['sigma_m'])),
+                                ('value', v50),
+                                ('q84', v50 + float(ent['sigma_p'])))):
+                            if not lo[j] - tol <= gv <= hi[j] + tol:
+                                viol('derived-summary', nm + ':tied-values',
+                                     '%s: %r; the quantile rule gives a value '
+                                     'in [%r, %r] for every order of the tied '
+                                     'samples' % (d, gv, lo[j], hi[j]))
                         sent = (single[sid] or {}).get('%s_derived' % d)
                         if sent is None:
                             continue
